@@ -104,3 +104,30 @@ Definition run (c : cfg) (t0 : Z) (evs : list ev) : st := run_from c (accept c t
 (* the clock never runs backwards *)
 Definition monotone (evs : list ev) : bool :=
   forallb (fun e => match e with Tick dt => 0 <=? dt | _ => true end) evs.
+
+(* ------------------------------------------------------------------ configuration path
+   How the configured idle timeout reaches an accepted connection (all values in ticks of 1/8 s
+   here, because the class defaults are fixed numbers of seconds):
+     front end  Valet / Porter (timeout=None -> class default), constructs its Server / ServerTls
+                with or without `timeout=self.timeout`
+     server     Server / ServerTls (timeout=None -> class default), constructs each Incomer /
+                IncomerTls with or without `timeout=self.timeout`
+     connection Incomer(.Tls) (timeout=None -> class default); .timer duration = .timeout
+   Which keyword arguments are forwarded, and the defaults, are extracted from the source (tie T). *)
+Record path := {
+  front_default : Z; front_forwards : bool;
+  server_default : Z; server_forwards : bool;
+  incomer_default : Z
+}.
+
+Definition resolve (given : option Z) (default : Z) : Z :=
+  match given with Some t => t | None => default end.
+
+(* Valet(timeout=configured).timeout *)
+Definition front_timeout (p : path) (configured : option Z) : Z := resolve configured (front_default p).
+(* .servant.timeout *)
+Definition server_timeout (p : path) (configured : option Z) : Z :=
+  resolve (if front_forwards p then Some (front_timeout p configured) else None) (server_default p).
+(* ix.timeout = ix.timer.duration of every accepted connection *)
+Definition conn_timeout (p : path) (configured : option Z) : Z :=
+  resolve (if server_forwards p then Some (server_timeout p configured) else None) (incomer_default p).
